@@ -30,6 +30,13 @@ let operands sc form args =
   let getL a = List.map (fun z -> Z.mul sc z) (getL a) in
   match form, args with
   | "nn", [a; b] -> (num a, num b, false)
+  | "wi", [_; _; f; a; b] ->        (* integer element types of different width: the model's integers are exact *)
+      (match getS f with
+       | "vec" -> (Idx (KVec, getL a), Idx (KVec, getL b), false)
+       | "nd" -> let n l = z_of_int (List.length l) in
+                 (Arr ([z_of_int 1; n (getL a)], getL a), Arr ([z_of_int 1; n (getL b)], getL b), false)
+       | "sc" -> (Num (List.hd (getL a)), Num (List.hd (getL b)), false)
+       | k -> failwith ("wi form " ^ k))
   | ("ii" | "dii"), [ka; kb; a; b] ->
       (Idx (kind_of (getS ka), getL a), Idx (kind_of (getS kb), getL b), form = "dii")
   | "aa", [ka; kb; a; b] -> (arr_kind (getS ka) a, arr_kind (getS kb) b, false)
@@ -80,7 +87,10 @@ let cl_handler form args =
 
 let () =
   List.iter (fun f -> register ("eq_" ^ f) (eq_handler f); register ("cl_" ^ f) (cl_handler f))
-    ["nn"; "ii"; "dii"; "aa"; "ia"; "ai"; "mm"; "ma"; "am"; "ee"; "ea"; "ae"; "en"; "ne"; "tt"; "tm"; "mt"];
+    ["nn"; "ii"; "dii"; "aa"; "ia"; "ai"; "mm"; "ma"; "am"; "ee"; "ea"; "ae"; "en"; "ne"; "tt"; "tm"; "mt"; "wi"];
+  (* utils::apply_isequal / apply_isclose: same reference, same model (the maybe arms of the public entry) *)
+  List.iter (fun f -> register ("aeq_" ^ f) (eq_handler f); register ("acl_" ^ f) (cl_handler f))
+    ["nn"; "aa"; "mm"; "ma"; "am"; "tt"; "tm"];
   (* layout suffixes: the operands' arrays are row-/column-major objects with the same logical content *)
   List.iter (fun f -> List.iter (fun l ->
       register ("eq_" ^ f ^ "." ^ l) (eq_handler f); register ("cl_" ^ f ^ "." ^ l) (cl_handler f)) ["rr"; "rc"; "cr"; "cc"])
